@@ -76,8 +76,56 @@ def framerate_family(res, tier):
     res.coverage["framerate_family"] = metas
 
 
+def economy_family(res, tier):
+    """whole Programs, every output option (plain, WithANSICompressor, alt screen): a view of 9 lines of which one changes per
+    update costs about that line, an unchanged view costs nothing"""
+    from .. import program as P
+    scs, metas = [], []
+    for compressor in (False, True):
+        for alt in (False, True):
+            for at in (0, 4, 8):
+                script = [P.W("started"), P.W("idle"), P.DO("sleep", us=40000)]
+                for k in range(4):
+                    script += [P.DO("send", msg=P.U(10 + k)), P.DO("sleep", us=40000), P.W("idle")]
+                script += [P.DO("quit"), P.W("returned")]
+                scs.append(P.scenario(len(scs), script, opts={"fps": 120, "compressor": compressor, "alt": alt}, view={"pad": 8, "at": at}, writes=True,
+                                      parallel_ok=True, watchdog_ms=4000))
+                metas.append({"compressor": compressor, "alt": alt, "changed_line": at})
+    results, _ = P.run_scenarios("C19_econ", scs, timeout=600)
+    bad = []
+    for m, r in zip(metas, results):
+        if P.machinery_problem(r) or not r["run_returned"]:
+            bad.append((m, "scenario did not complete"))
+            continue
+        ev = r["events"]
+        ws = r.get("writes", [])
+        for k in range(1, 3):          # the frames of the 2nd and 3rd update, each delimited by the next update (the last window would contain the exit sequences)
+            t0 = next((e["t"] for e in ev if e["ev"] == "UpdateBegin" and e.get("key") == "u:%d" % (10 + k)), None)
+            t1 = next((e["t"] for e in ev if e["ev"] == "UpdateBegin" and e.get("key") == "u:%d" % (11 + k)), None)
+            if t0 is None:
+                bad.append((m, "marker missing"))
+                break
+            if t1 is None:
+                bad.append((m, "marker missing"))
+                break
+            n = sum(ln for t, ln in ws if t0 <= t < t1)
+            # the changed line ("view NN") plus cursor movement: a row of the constant lines alone is 33 bytes
+            bound = 10 + 9 * 4 + 24
+            m.setdefault("bytes", []).append(n)
+            if n > bound:
+                bad.append((m, "one line of a 9-line view changed; %d bytes were written (the changed line is 7 bytes, the bound with cursor movement is %d; options: %s)" %
+                            (n, bound, {k: v for k, v in m.items() if k != "bytes"})))
+                break
+    res.oblige("Spec on real Programs: a one-line change of a 9-line view costs about one line, whatever the output options (compressor, alt screen; %d programs)" % len(scs),
+               not bad, [b[1] for b in bad[:2]])
+    for m, what in bad[:1]:
+        res.violation("C19:program-cost:%s" % ("compressor" if m["compressor"] else "plain"), what, {"scenario_meta": m})
+    res.coverage["economy_family"] = metas
+
+
 def run(res, tier, seed):
     framerate_family(res, tier)
+    economy_family(res, tier)
     rnd = random.Random(seed * 9001 + 19)
     cases = gen(rnd, tier)
     # frame-rate clamp: real newRenderer vs model, fps in -5..300 and extreme values
